@@ -446,7 +446,13 @@ def cache_4(ctx, rep, roles):
         ok = len(moved) == 1 and len(opens_w) == 1 and mode_of(opens_w[0]) == 'wb'
         why = 'the writer neither truncates the pickle nor moves a freshly written file onto it'
     rep.ob('CACHE-4', CACHE, sv.qual, "pickle written as new content ('wb' on the pickle path, or a 'wb' temporary moved onto it)", ok, why)
-    opens_r = [n for n in walk_own(ld.node) if isinstance(n, ast.Call) and norm(n.func) == 'open']
+    # the reader itself, or the module-level helpers it hands the pickle path to
+    readers = [ld]
+    for n in walk_own(ld.node):
+        if isinstance(n, ast.Call) and isinstance(n.func, ast.Name) and n.func.id in prog.mod(CACHE).funcs \
+                and n.func.id not in ('_get_hashed_path', '_set_cache_item'):
+            readers.append(prog.mod(CACHE).funcs[n.func.id])
+    opens_r = [n for r in readers for n in walk_own(r.node) if isinstance(n, ast.Call) and norm(n.func) == 'open']
     ok = len(opens_r) == 1 and len(opens_r[0].args) > 1 and isinstance(opens_r[0].args[1], ast.Constant) and opens_r[0].args[1].value == 'rb'
     rep.ob('CACHE-4', CACHE, ld.qual, "open(<pickle path>, 'rb')", ok, 'the reader does not open the pickle for binary read')
 
@@ -610,10 +616,16 @@ def exc_2(ctx, rep):
     import re as _re
     prog = ctx.prog
     n_uses = 0
+    loaders = {'pickle.load', 'pickle.loads'}
+    # helpers that simply hand back what pickle.load returned
+    for f in prog.mod(CACHE).funcs.values():
+        rets = [n.value for n in walk_own(f.node) if isinstance(n, ast.Return) and n.value is not None]
+        if rets and all(isinstance(v, ast.Call) and norm(v.func) in ('pickle.load', 'pickle.loads') for v in rets):
+            loaders.add(f.name)
     for f in prog.mod(CACHE).funcs.values():
         loaded = set()
         for n in walk_own(f.node):
-            if isinstance(n, ast.Assign) and isinstance(n.value, ast.Call) and norm(n.value.func) in ('pickle.load', 'pickle.loads'):
+            if isinstance(n, ast.Assign) and isinstance(n.value, ast.Call) and norm(n.value.func) in loaders:
                 for t in n.targets:
                     if isinstance(t, ast.Name):
                         loaded.add(t.id)
